@@ -6,6 +6,7 @@ import FFVerif.Pins.pinParseSpectrum
 import FFVerif.Pins.pinGetIndices
 import FFVerif.Pins.pinHashArray
 import FFVerif.Pins.pinAllArrayEqual
+import FFVerif.Pins.pinConcatenateHamiltonian
 #print axioms FFVerif.C20.parse_hamiltonian_valid_never_rejected
 #print axioms FFVerif.C20.parse_hamiltonian_rejects_iff
 #print axioms FFVerif.C20.parse_hamiltonian_rejected_invalid
@@ -61,3 +62,4 @@ import FFVerif.Pins.pinAllArrayEqual
 #print axioms FFVerif.Pins.pinGetIndices
 #print axioms FFVerif.Pins.pinHashArray
 #print axioms FFVerif.Pins.pinAllArrayEqual
+#print axioms FFVerif.Pins.pinConcatenateHamiltonian
